@@ -1,12 +1,16 @@
 """C15 — saved iterations and saved simulations."""
+import os
+from tools.py2lean import gen_c15
+
 LEAN_TARGETS = ["EasyFEAVerif.Props.C15"]
 PROPS_MODULES = ["EasyFEAVerif.Props.C15"]
 TRUSTED_EXTRA = [
-    "C15: the store model (Model/IterStore.lean) is hand-written; files are identified by (folder, iteration counter): injectivity of the file-name encoding and pickle's round trip are assumed",
+    "C15: the mesh-history bookkeeping (mesh setter, Save_Iter, Set_Iter, __Update_mesh) is matched statement by statement and modelled by MeshHist (refinement proved for every operation sequence); the store model (Model/IterStore.lean) is hand-written; files are identified by (folder, iteration counter): injectivity of the file-name encoding and pickle's round trip are assumed",
     "C15: 'getters copy, setters store': absence of aliasing between stored arrays and live state is checked on the real code (earlier iterations re-read after every operation), not proved",
 ]
 ASSUMPTIONS = ["each simulation type's Save_Iter stores every component of its state: checked per type by restoring and comparing all named results"]
 
 
 def generate(repo, lean_dir):
-    return dict(model="hand-written: lean/EasyFEAVerif/Model/IterStore.lean", tie="correspondence")
+    d = gen_c15.write(repo, os.path.join(lean_dir, "EasyFEAVerif", "Gen", "C15"))
+    return dict(model="hand-written: lean/EasyFEAVerif/Model/IterStore.lean, Props/C15 MeshHist (statements pinned by Gen/C15/MeshHistory.lean)", tie="statement-level translation + correspondence", extracted=d["forms"])
